@@ -1669,7 +1669,7 @@ impl FunctionCompiler<'_> {
                                 self.tys[self.loc].meta_ty(ty).unwrap()
                             }
                             hir::ArmVariant::Shorthand(name) => {
-                                let Ty::Enum { ref variants, .. } = *sum_ty else {
+                                let Ty::Enum { variants, .. } = sum_ty.absolute_ty() else {
                                     unreachable!()
                                 };
 
